@@ -165,14 +165,40 @@ Theorem c07_mismatch_rejected_unknown_event_type_or_handler :
 Proof. exact unknown_event_rejected. Qed.
 Print Assumptions c07_mismatch_rejected_unknown_event_type_or_handler.
 
-(** link between the two evaluators (complete for single-entity probes; for whole
-    simulations only the no-panic clause — the full link is left open, see level_note) *)
+(** a rebuilt simulation with the same build id, entity set and compatible configuration
+    (same specs, capacities, shapes, all types and handlers registered) loads successfully *)
+Theorem c07_load_succeeds :
+  forall cfg b s s0 a,
+    names_ok s -> save_sim b s = Ok a -> compat_sim_b cfg s s0 = true ->
+    exists s', load_all cfg b a s0 = Ok s'.
+Proof. exact load_succeeds. Qed.
+Print Assumptions c07_load_succeeds.
+
+(** a load that succeeds implies that nothing listed in the statement differed *)
+Theorem c07_load_ok_no_mismatch :
+  forall cfg b1 b2 s s0 a s',
+    names_ok s -> save_sim b1 s = Ok a -> load_all cfg b2 a s0 = Ok s' ->
+    sim_mismatch_b cfg b1 b2 s s0 = false.
+Proof. exact load_ok_no_sim_mismatch. Qed.
+Print Assumptions c07_load_ok_no_mismatch.
+
+(** link between the two evaluators of Exec.v: complete for whole simulations with the
+    archive as written and for single-entity probes; for hand-crafted / damaged archives
+    only the no-panic clause (the model's [malformed_b] classification of such archives is
+    not linked) — hence _partial *)
 Theorem c07_model_agreement_implies_property_partial :
+  (forall cfg b1 b2 s s0 a1 h1 o h2 eq,
+     names_ok s ->
+     check_case (CSim cfg b1 b2 s s0 None a1 h1 o h2 eq) = true ->
+     holds_on (CSim cfg b1 b2 s s0 None a1 h1 o h2 eq) = true) /\
   (forall cfg e0 p o blow,
      check_case (CProbe cfg e0 p o blow) = true -> holds_on (CProbe cfg e0 p o blow) = true) /\
   (forall cfg b1 b2 s s0 t a1 h1 o h2 eq,
      check_case (CSim cfg b1 b2 s s0 (Some t) a1 h1 o h2 eq) = true -> is_panic o = false).
-Proof. split; [exact probe_agreement_implies_property|exact sim_agreement_no_panic]. Qed.
+Proof.
+  split; [exact sim_agreement_implies_property|].
+  split; [exact probe_agreement_implies_property|exact sim_agreement_no_panic].
+Qed.
 Print Assumptions c07_model_agreement_implies_property_partial.
 
 Example c07_canonical_nonvacuous :
